@@ -158,6 +158,12 @@ class JupiterMoons(object):
         >>> print(callisto)
         (7.072022641384802, 1.0289678450543338, -25.224420329457175)
         """
+        # Check input types
+        if not (isinstance(epoch, Epoch) and isinstance(tofk5, bool)
+                and isinstance(solar, bool)
+                and isinstance(do_correction, bool)):
+            raise TypeError("Invalid input types")
+
         # Calculate solar coordinates
         O, beta, R = Sun.geometric_geocentric_position(epoch, tofk5)
 
@@ -676,7 +682,17 @@ class JupiterMoons(object):
         """
 
         # Checking for type
-        if not isinstance(epoch, Epoch):
+        if not (isinstance(epoch, Epoch)
+                and isinstance(X, (int, float))
+                and isinstance(Y, (int, float))
+                and isinstance(Z, (int, float))
+                and isinstance(OMEGA, (int, float))
+                and isinstance(psi, (int, float))
+                and isinstance(i, (int, float))
+                and isinstance(lambda_0, (int, float))
+                and isinstance(beta_0, (int, float))
+                and isinstance(D, (int, float))
+                and isinstance(isFictional, bool)):
             raise TypeError("Invalid input types")
 
         # Time in centuries since 1900.0
@@ -825,7 +841,11 @@ class JupiterMoons(object):
         (-3.450168811390241, 0.21370246960509387, -4.818966623735296)
         """
         # Check type
-        if not isinstance(i_sat, int):
+        if not (isinstance(R, (int, float)) and isinstance(i_sat, int)
+                and isinstance(DELTA, (int, float))
+                and isinstance(X_coordinate, (int, float, list, tuple))
+                and isinstance(Y_coordinate, (int, float))
+                and isinstance(Z_coordinate, (int, float))):
             raise TypeError("Invalid input types")
 
         # Handle tuple or seperate values for input coordinates
@@ -901,7 +921,8 @@ class JupiterMoons(object):
         """
 
         # Check input type
-        if not isinstance(epoch, Epoch):
+        if not (isinstance(epoch, Epoch) and isinstance(check_all, bool)
+                and isinstance(i_sat, int)):
             raise TypeError("Invalid input type")
 
         # Calculate light-time delay
